@@ -176,7 +176,7 @@ pub fn strip_ws(text: &str) -> String {
     text.chars().filter(|c| !matches!(c, ' ' | '\t' | '\r' | '\n' | '\x0c')).collect()
 }
 
-const COMMENT_WORDS: &[&str] = &["c", "note: a | b", "é😀", "x*/y", "token ;", "'", "", "  two  spaces", "/* not nested", "first line\n   second line", "a\n\tb\n * c\n"];
+const COMMENT_WORDS: &[&str] = &["c", "note: a | b", "é😀", "x*/y", "token ;", "'", "", "  two  spaces", "/* not nested", "first line\n   second line", "a\n\tb\n * c\n", "*", "**", "x **", "* banner ***", "/", "/ /", "*\n *"];
 
 fn comment(d: &mut Dice<'_>, allow_doc: bool) -> String {
     let w = COMMENT_WORDS[d.below(COMMENT_WORDS.len())];
@@ -279,7 +279,7 @@ pub fn k9_shape(text: &str) -> bool {
 /// the lexical items of the grammar language used for bounded-exhaustive text enumeration
 pub const ITEMS: &[&str] = &[
     "token", "start", "right", "skip", "part", ":", ";", "=", "(", ")", "[", "]", "|", "*", "+", "^", "~", "&", "/", "a", "B", "r_1", "'x'", "''", "'\\''", "'\\q'", "'\\é'", "'é'", "'a b'", "'unterminated", "?1", "?t", "#1", "!1", "@a", "@", "<1", "1>a", ">", "1>", ">a",
-    "//c\n", "//c", "///d\n", "/*b*/", "/*", " ", "\n", "$", "é", "😀", "?", "#", "<", "!", "\\",
+    "//c\n", "//c", "///d\n", "/*b*/", "/***/", "/*", " ", "\n", "$", "é", "😀", "?", "#", "<", "!", "\\",
 ];
 
 /// token-level mutation of a text (delete / duplicate / insert / swap / truncate)
